@@ -37,6 +37,17 @@ fn main() {
 fn fast_base(tag: &str) -> PathBuf {
     let shm = PathBuf::from("/dev/shm");
     if std::env::var("VERIF_NO_SHM").is_err() && shm.is_dir() {
+        // leftovers of killed runs (their process no longer exists)
+        if let Ok(rd) = std::fs::read_dir(&shm) {
+            for ent in rd.flatten() {
+                let name = ent.file_name().to_string_lossy().into_owned();
+                if let Some(pid) = name.strip_prefix(&format!("verif-{tag}-"))
+                    && !std::path::Path::new(&format!("/proc/{pid}")).exists()
+                {
+                    let _ = std::fs::remove_dir_all(ent.path());
+                }
+            }
+        }
         let p = shm.join(format!("verif-{}-{}", tag, std::process::id()));
         let _ = std::fs::remove_dir_all(&p);
         if std::fs::create_dir_all(&p).is_ok() {
